@@ -286,6 +286,11 @@ func runC02(c *eng.Ctx) {
 	}}, "leaderEpochCache.epochOffsets")
 	c.Floor(12)
 
+	// ---- shared: the watermark can only move through the commit rule when there are followers
+	c.Rule("R03.2", "K3")
+	ruleFastPathGate(c)
+	c.Floor(2)
+
 	// ---- R02.6 shared: commit rule and election candidate
 	c.Rule("R04.2", "K1")
 	ruleCommitRule(c)
